@@ -433,6 +433,56 @@ func corpus(e *ev.Env) {
 			})
 		}
 	}
+	for _, src := range [][2]string{{"cookie", "sid"}, {"header", "X-Session-Id"}, {"query", "sid"}} {
+		src := src
+		// ids of every length a KeyGenerator may produce are the server's own ids
+		e.Corpus("id-length-"+src[0], func(c *ev.Case) {
+			for i, n := range idLengths {
+				cfg := cfgT{Source: src[0], Name: src[1], VStore: i%2 == 0, IDs: idStyles[i%len(idStyles)], IDLen: n, Idle: 5 * sec}
+				runFixed(e, c, cfg, 1, []cstep{
+					{mw: true, ops: []op{set("k0", "v0.1")}},
+					{mw: true, present: "@jar", ops: []op{get("k0"), set("k1", "v0.2")}},
+					{present: "@jar", ops: []op{get("k0"), get("k1"), {K: "byid", Tgt: "@jar"}, k("save")}},
+				})
+			}
+		})
+		// New(Config{Store: store}): the sessions live by the timeouts the store was built with
+		e.Corpus("ready-made-store-"+src[0], func(c *ev.Case) {
+			for _, vst := range []bool{true, false} {
+				cfg := cfgT{Source: src[0], Name: src[1], VStore: vst, Ready: true, Idle: 2 * sec, Abs: 4 * sec}
+				runFixed(e, c, cfg, 1, []cstep{
+					{mw: true, ops: []op{set("k0", "v0.1")}},
+					{adv: 600 * ms, mw: true, present: "@jar", ops: []op{get("k0")}},
+					{adv: 3400 * ms, mw: true, present: "@jar", ops: []op{get("k0")}}, // idle 2 s over
+					{ops: []op{{K: "byid", Tgt: "@first"}}},
+					{mw: true, ops: []op{set("k0", "v0.2")}},
+					{adv: 1400 * ms, mw: true, present: "@jar", ops: []op{get("k0")}},
+					{adv: 1400 * ms, mw: true, present: "@jar", ops: []op{get("k0")}},
+					{adv: 1400 * ms, ops: []op{{K: "byid", Tgt: "@jar"}}}, // 4.2 s: absolute timeout over
+					{mw: true, present: "@jar", ops: []op{get("k0")}},
+				})
+			}
+		})
+		// a second lookup in the request that regenerated the session must not give it a new age
+		e.Corpus("regenerate-then-second-get-"+src[0], func(c *ev.Case) {
+			for _, vst := range []bool{true, false} {
+				cfg := cfgT{Source: src[0], Name: src[1], VStore: vst, Idle: 3 * sec, Abs: 4 * sec}
+				runFixed(e, c, cfg, 1, []cstep{
+					{ops: []op{set("k0", "v0.1"), k("save")}},
+					{adv: 1400 * ms, present: "@jar", ops: []op{get("k0"), k("regen"), k("save"), k("release"), k("reget"), get("k0"), k("save")}},
+					{adv: 1400 * ms, present: "@jar", ops: []op{get("k0"), {K: "byid", Tgt: "@prev", Save: true}, k("save")}}, // 2.8 s
+					{adv: 1400 * ms, present: "@jar", ops: []op{get("k0"), {K: "byid", Tgt: "@prev"}}},                        // 4.2 s
+				})
+				// the same through a handler in front of the middleware
+				runFixed(e, c, cfg, 1, []cstep{
+					{mw: true, ops: []op{set("k0", "v0.1")}},
+					{adv: 1400 * ms, outer: true, present: "@jar", pre: []op{get("k0"), k("regen"), k("save")}, ops: []op{get("k0")}},
+					{adv: 1400 * ms, mw: true, present: "@jar", ops: []op{get("k0"), {K: "byid", Tgt: "@prev", Save: true}}},
+					{adv: 1400 * ms, mw: true, present: "@jar", ops: []op{get("k0"), {K: "byid", Tgt: "@prev"}}},
+				})
+			}
+		})
+	}
 	// the storage cannot delete
 	for _, src := range [][2]string{{"cookie", "sid"}, {"header", "X-Session-Id"}, {"query", "sid"}} {
 		src := src
